@@ -25,7 +25,7 @@ func init() {
 	register(core.Campaign{
 		Property: "C20",
 		Rule: "CloudflarePublisher (base URL hook) against the harness's own fake Cloudflare v4 API (result_info.count = items on THIS page, total_count, total_pages; auth header checked; request log; failure injection by request index with non-retried 403s): " +
-			"zones with 0..65 HTTPS records (1..4 pages) whose parameter strings are generated (quoted / unquoted values, several / no ech entries, repeated spaces, empty value), target lists with existing / missing / duplicate records and unknown zones, " +
+			"zones with 0..65 HTTPS records (1..4 pages) and large zones of 1001..2003 records (51..101 pages) whose parameter strings are generated (quoted / unquoted values, several / no ech entries, repeated spaces, empty value), target lists with existing / missing / duplicate records and unknown zones, " +
 			"SEQUENCES of 1..4 publishes with changing config lists, faults at every request index of a call (thorough) or sampled (quick). Compared with the Lean model (results, PATCH log, API state) and Go predicates: one result per record in order, " +
 			"exactly one ech entry equal to base64(list) with the other parameters in order, no PATCH when current, nothing else touched. distinct = (zone shape, target shape, fault position class, result vector).",
 		Gen: genC20,
@@ -221,6 +221,10 @@ func genC20(env *core.Env, emit func(core.Case)) {
 		if !env.Thorough() && nrec > 21 && r.IntN(2) == 0 {
 			nrec = 21
 		}
+		if i == 7 || (env.Thorough() && i%50 == 7) {
+			// a large zone: the listing has more pages than anyone would guess as a limit
+			nrec = []int{1001, 1005, 2003, 1290}[(i/50)%4]
+		}
 		z1 := &cfZoneT{ID: "zid1", Name: "example.org"}
 		for k := 0; k < nrec; k++ {
 			ne := []int{0, 0, 1, 1, 2}[r.IntN(5)]
@@ -306,6 +310,12 @@ func genC20(env *core.Env, emit func(core.Case)) {
 				k := r.IntN(8)
 				faults[k] = true
 				faultClass = fmt.Sprintf("f%d", min(k, 4))
+			}
+			if nrec > 1000 && call == 0 {
+				// the large zone's first call: no API failure, and the zone's last record is asked for
+				faults, faultClass = map[int]bool{}, "none"
+				tg = append(tg, publish.Target{Zone: "example.org", Name: fmt.Sprintf("h%d.example.org", nrec-1)})
+				shape += "L"
 			}
 			var fl []int
 			for k := range faults {
